@@ -97,9 +97,10 @@ class LeanBuild:
         try:
             info = {"generated": None, "generated_broken": None}
             if regenerate:
-                from . import translate_flags
+                from . import translate_config, translate_flags
 
                 info["generated"] = translate_flags.regenerate()
+                info["generated_config"] = translate_config.regenerate()
             t0 = time.time()
             p = _run(["lake", "build"], cwd=LEAN_DIR)
             info["build_s"] = round(time.time() - t0, 1)
@@ -164,11 +165,18 @@ class LeanBuild:
         return axioms
 
 
+# theorems that compose several properties are counted for each of them
+SHARED_NAMESPACES = {"pta.e2e.": ("c01", "c02", "c03", "c04")}
+
+
 def theorems_for(prop_id: str, axioms: dict):
     """Theorems of a property = names starting with Pta.<id>. in the audit (case-insensitive id prefix)."""
     pref = prop_id.lower()
     out = {}
     for name, ax in axioms.items():
+        if any(name.lower().startswith(ns) and pref in props for ns, props in SHARED_NAMESPACES.items()):
+            out[name] = ax
+            continue
         short = name.split(".")[-1].lower()
         ns = name.lower()
         if f".{pref}." in ns or short.startswith(pref + "_") or short == pref:
@@ -341,6 +349,7 @@ def finish(ctx: Ctx, lean_info: dict, rule: str, extra_assumptions=(), checker_c
         "exhaustive": any(s["exhaustive"] for s in ctx.streams),
         "out_of_domain_drift": ctx.drift[:10],
         "generated": lean_info.get("generated"),
+        "generated_config": lean_info.get("generated_config"),
         "generated_broken": lean_info.get("generated_broken"),
         "known_findings": ctx.known_lines,
         "notes": ctx.notes,
